@@ -289,9 +289,12 @@ Example C15d_ex_scenario_applies :
      suspended (nsvc exD n exWh)).
 Proof.
   destruct C15d_ex_scenario as (F & A & B & _ & _ & _ & _ & _ & _ & _ & Hb).
-  destruct (C15_scenario_quiescence_or_hold exD [] (mkSio [65; 84; 43; 88; 10; 65; 84; 10]%N ex_rd ex_wr)
-              (mkSmu [] []) scr_susp ex_sops eq_refl ex_wf F A B) as (n & Hn & Ho).
-  exists n. split; [|exact Ho]. fold (exW scr_susp) in Hn. fold exWh in Hn. rewrite <- Hb. lia.
+  pose proof (C15_scenario_quiescence_or_hold exD [] (mkSio [65; 84; 43; 88; 10; 65; 84; 10]%N ex_rd ex_wr)
+              (mkSmu [] []) scr_susp ex_sops eq_refl ex_wf F A B) as X.
+  change (exists n, n <= C15_bound exD exWh + sched_left exWh /\
+            ((inq (io _ _ _ (nsvc exD n exWh)) = [] /\ snd (exdo (nsvc exD n exWh) OService) = ST_OK) \/
+             suspended (nsvc exD n exWh))) in X.
+  destruct X as (n & Hn & Ho). exists n. split; [|exact Ho]. rewrite <- Hb. lia.
 Qed.
 
 (* why D3 is needed: if the READ handler answers HOLD to the EVENT machine, the command machine is
